@@ -191,6 +191,17 @@ Definition sx_print_result (r : outcome str perr * list typedef) : sx :=
   | Panic w => SL [SA 3; sx_str w]
   end.
 
+Definition sx_rt (r : list rt_step * rt_fail) : sx :=
+  SL [sx_list (fun s => match s with
+                        | RStep m (Some t) => SL [sx_model m; sx_str t]
+                        | RStep m None => SL [sx_model m]
+                        end) (fst r);
+      match snd r with
+      | RFNone => SL []
+      | RFParse k => SL [sx_nat k; SA 0]
+      | RFPrint k => SL [sx_nat k; SA 1]
+      end].
+
 (* wire ops 200-299: transformer *)
 Definition dispatch_transform (op : N) (args : list sx) : option sx :=
   match op, args with
@@ -198,6 +209,8 @@ Definition dispatch_transform (op : N) (args : list sx) : option sx :=
                                      SL [sx_list sx_tok ts; sx_list sx_lexerr es]) (un_str d)
   | 201, [d] => option_map (fun d => sx_dsl_result (dsl_to_model d)) (un_str d)
   | 202, [SA src; m] => option_map (fun m => sx_print_result (print_model (negb (src =? 0)) m)) (un_model m)
+  | 205, [SA src; m] => option_map (fun m => sx_print_result (print_model (negb (src =? 0)) (json_model m))) (un_model m)
+  | 206, [SA via; d] => option_map (fun d => sx_rt (roundtrip 3 0 (negb (via =? 0)) d)) (un_str d)
   | 203, [d] => option_map (fun d => sx_str (prepass d)) (un_str d)
   | 204, [ts] => option_map (fun ts => sx_dsl_result (parse_walk ts)) (un_listof un_tok ts)
   | _, _ => None
